@@ -610,3 +610,13 @@ class ISet:
 
     def __repr__(self):
         return 'ISet{' + ', '.join(map(repr, self.elems)) + '}'
+
+
+class AbstractCall:
+    """Result of a call that is kept abstract (modular treatment of a callee: an uninterpreted function of its bound arguments)."""
+
+    def __init__(self, name, args):
+        self.name, self.args = name, args       # args: dict name -> value (defaults applied)
+
+    def __repr__(self):
+        return f'<{self.name}({", ".join(f"{k}={v!r}" for k, v in self.args.items())})>'
